@@ -13,13 +13,19 @@ TARGETS = ['PyIpmi.Props.C15', 'drv_c15']
 LEVEL = 'proof'
 RULE = ('abstract FRU images (every subset of internal/chassis/board/product/multi-record areas; every predefined '
         'field in each of the four type/length encodings with every byte length 0..63; 0..8 custom fields; extra '
-        'unused space; 0..8 multi-records of 0..255 data bytes, generic / PICMG / power-module) are encoded by the '
+        'unused space; 0..8 multi-records of 0..255 data bytes: generic records of every type id - the OEM type C0h of '
+        'other manufacturers, with the PICMG id but too short for a PICMG record, with 27h as fourth data byte, as last '
+        'and as inner record included -, PICMG and power-module records) are encoded by the '
         'Lean SPEC encoder (Spec/FruFormat.lean, written from the storage definition) and parsed by the real code as '
         'bytes, as array("B"), as list, from a file (get_fru_inventory_from_file) and through Ipmi.get_fru_inventory '
         'on a byte-level FRU device; every attribute is compared with the spec view (property) and with the Lean '
         'model of the parser (tie).  Alteration stream: single-byte alterations of sampled images at every position '
-        '(quick: boundary + seeded values per position, thorough: all 255) – a covered byte must be rejected, an '
-        'info-area length byte may be accepted only when the spec says the re-delimited range sums to zero.  '
+        '(quick: boundary + seeded values per position, thorough: all 255), as bytes, as array and - every info-area '
+        'length byte and a sample of the other positions - through the FRU device; a covered byte must be rejected; an '
+        'info-area length byte (quick: 0, 1, FFh, the neighbours of the old value and the one value for which the truncated '
+        'remainder of the image / of the device storage sums to zero; thorough: all 255) '
+        'may be accepted only when the spec says the DECLARED length is >= 1 unit, lies inside the data and its span '
+        'sums to zero (Spec.checksumsOk).  '
         'Sub-parser stream: TypeLengthString, each info-area class, the multi-record area and the header on mutated '
         'and random bytes (tie only).  Device histories: ONE long-lived Ipmi object (real codec, byte-level FRU device '
         'with several FRU ids): image A read (inventory or header), then the contents replaced by image B with another '
@@ -36,9 +42,21 @@ ASSUMPTIONS = [
     'datetime arithmetic is modelled, not verified: the model carries minutes since 1996-01-01; the real mfg_date is '
     'compared with the civil date computed by Spec.dateOfMinutes on every generated board area',
     'type 11b fields are 8-bit ASCII + Latin-1 (the 2-byte UNICODE reading under non-English language codes is not '
-    'part of the property); record type C0h is generated only as a PICMG record (manufacturer id 00315Ah)',
-    'the device path (Ipmi.get_fru_inventory) is judged against the spec view (and, in the history stream, the Lean '
-    'parser model); its transfer loop is C10; the byte-level device of the history stream (FruStore in c15.py) is written '
+    'part of the property)',
+    'a record of type C0h whose data start with the PICMG manufacturer id 00315Ah and the PICMG record id 27h but hold '
+    'fewer than 7 bytes (a truncated MTCA power module capability record) is not a well-formed image (Spec Record.wf); '
+    'the repaired code rejects it with DecodingError',
+    'an image whose header announces an info area at an offset behind the end of the data (FruInventory(data) then holds '
+    'an area object without attributes) is not reachable by a single-byte alteration (the header checksum covers the '
+    'offsets) and Spec.checksumsOk has nothing to check for it; a multi-record whose length byte reaches behind the end '
+    'of the data has its body checksum taken over the bytes that exist (likewise unreachable: the length byte is '
+    'covered by the record header checksum)',
+    'an info-area length byte altered to another value b >= 1 whose span of 8*b bytes lies inside the data and sums '
+    'to zero is accepted by every reader of this format (8-bit checksum whose extent the byte itself defines: theorem '
+    'length_byte_limit); counted as altered:length-byte-accepted(format limit), not a violation',
+    'the device path (Ipmi.get_fru_inventory) is judged against the spec view and compared with the Lean model of the '
+    'device path (Model/FruDevice.lean: read_fru_data by its contract - the stored bytes or the completion code C9h); '
+    'its transfer loop is C10; the byte-level device of the history stream (FruStore in c15.py) is written '
     'from IPMI v2.0 34.1-34.3 and is trusted; what a faulted write must raise is not judged here',
     'three characters of 6-bit text occupy the same 3 bytes as four (the fourth being a space): the view pads, '
     'a limit of the packed format',
@@ -50,6 +68,11 @@ _workdir = None
 
 SIG_BCD = 'C15:TypeLengthString:bcd-plus-on-non-bytes'
 SIG_SIX = 'C15:_unpack6bitascii:partial-group'
+SIG_OEM = 'C15:create_from_record_id:oem-c0-record-decoded-as-picmg'
+SIG_LEN0 = 'C15:altered-accepted:info-area-length-zero'
+SIG_LENX = 'C15:altered-accepted:info-area-length-beyond-data'
+
+_FLAGS = None     # probe result of the tree under test (set by _run / replay)
 
 EPOCH = datetime.datetime(1996, 1, 1)
 
@@ -71,13 +94,42 @@ def _probe():
         six_strict = False
     except IndexError:
         six_strict = True
-    return bcd_only, six_strict
+    from pyipmi import fru
+    from pyipmi.errors import DecodingError
+    # chassis area (hand-built from the storage definition): 01 LL 17 C0 C0 C1 00 ck  with LL = 00 and a zero sum
+    area0 = bytes([0x01, 0x00, 0x17, 0xc0, 0xc0, 0xc1, 0x00, 0xa7])
+    try:
+        fru.InventoryChassisInfoArea(area0)
+        area_lax = True
+    except DecodingError:
+        area_lax = False
+    # the same area behind a common header on a FRU device
+    image = bytes([0x01, 0x00, 0x01, 0x00, 0x00, 0x00, 0x00, 0xfe]) + area0
+    try:
+        make_device(image).get_fru_chassis_area(fru_id=0)
+        dev_lax = True
+    except DecodingError:
+        dev_lax = False
+    # OEM record C0h of manufacturer 000157h (not PICMG 00315Ah), 5 data bytes, end of list
+    body = [0x57, 0x01, 0x00, 0x16, 0x00]
+    hdr = [0xc0, 0x82, len(body), (-sum(body)) % 256]
+    rec = bytes(hdr + [(-sum(hdr)) % 256] + body)
+    r = fru.FruDataMultiRecord.create_from_record_id(rec)
+    type_only = isinstance(r, fru.FruPicmgRecord)
+    return bcd_only, six_strict, area_lax, dev_lax, type_only
 
 
 def translate(ctx):
     global _consts
     _consts = tfru.generate()
-    bcd_only, six_strict = _probe()
+    bcd_only, six_strict, area_lax, dev_lax, type_only = _probe()
+    for key, lax, what in (('areaLenForm', area_lax, 'CommonInfoArea._from_data'), ('devLenForm', dev_lax, 'Fru._read_fru_area')):
+        if (_consts[key] == 'lax') != lax:
+            raise TieBroken('%s has the %s form but an info area with length byte 0 is %s' % (
+                what, _consts[key], 'accepted' if lax else 'rejected'))
+    if (_consts['dispatchForm'] == 'type-only') != type_only:
+        raise TieBroken('create_from_record_id has the %s form but a C0h record of another manufacturer is %s' % (
+            _consts['dispatchForm'], 'a FruPicmgRecord' if type_only else 'not a FruPicmgRecord'))
     if (_consts['sixForm'] == 'strict') != six_strict:
         raise TieBroken('_unpack6bitascii has the %s form but a 1-byte group %s' % (
             _consts['sixForm'], 'raises' if six_strict else 'decodes'))
@@ -179,6 +231,8 @@ def gen_record(rng, size=None):
     r = rng.random()
     if size is None:
         size = rng.choice((0, 1, 2, 7, 16, 255, rng.randrange(256), rng.randrange(0, 24)))
+    if r < 0.12:
+        return gen_oem_c0(rng, size)
     if r < 0.45:
         t = rng.choice([x for x in (0, 1, 2, 3, 4, 5, 0x0c, 0xbf, 0xc1, 0xd0, 0xff, rng.randrange(256)) if x != 0xc0])
         return ('g', t, [rng.randrange(256) for _ in range(size)])
@@ -187,6 +241,35 @@ def gen_record(rng, size=None):
         return ('p', pid, rng.randrange(256), [rng.randrange(256) for _ in range(min(size, 250))])
     return ('w', rng.choice((0, 1, rng.randrange(256))), rng.choice((0, 1, 420, 0xffff, 0x0100, rng.randrange(65536))),
             [rng.randrange(256) for _ in range(min(size, 248) if rng.random() < 0.5 else 0)])
+
+
+PICMG_ID = [0x5a, 0x31, 0x00]
+
+
+def gen_oem_c0(rng, size=None):
+    """OEM record of type C0h that is NOT a PICMG record (storage definition 16.2.1/18.7: C0h-FFh are OEM types of
+    every manufacturer; PICMG 3.0: a PICMG record carries manufacturer id 00315Ah, record id and version)"""
+    shape = rng.choice(('other-mfg', 'other-mfg-27', 'other-mfg-short', 'picmg-id-short', 'empty', 'near-id'))
+    if shape == 'empty':
+        return ('g', 0xc0, [rng.randrange(256) for _ in range(rng.choice((0, 1, 2)))])
+    if shape == 'picmg-id-short':
+        return ('g', 0xc0, PICMG_ID + [rng.choice((0x27, rng.randrange(256)))] * rng.choice((0, 1)))
+    if shape == 'near-id':          # differs from 00315Ah in exactly one byte
+        m = list(PICMG_ID)
+        k = rng.randrange(3)
+        m[k] = rng.choice([x for x in (m[k] ^ 1, m[k] ^ 0x80, rng.randrange(256)) if x != m[k]])
+    else:
+        m = rng.choice(([0x57, 0x01, 0x00], [0x00, 0x00, 0x00], [0xff, 0xff, 0xff], [0x3a, 0x3d, 0x00],
+                        [rng.randrange(256) for _ in range(3)]))
+        if m == PICMG_ID:
+            m = [0x57, 0x01, 0x00]
+    if shape == 'other-mfg-short':
+        return ('g', 0xc0, m + [rng.randrange(256)] * rng.choice((0, 1)))
+    n = rng.choice((2, 3, 4, 7, 16)) if size is None else max(0, min(size, 255) - 3)
+    tail = [rng.randrange(256) for _ in range(n)]
+    if shape == 'other-mfg-27' and tail:
+        tail[0] = 0x27
+    return ('g', 0xc0, m + tail)
 
 
 def gen_image(rng, subset=None, nrec=None):
@@ -207,7 +290,8 @@ def gen_image(rng, subset=None, nrec=None):
 
 def features(img):
     """What the image exercises (distribution + diagnosis of the two known defects)."""
-    f = {'bcd': False, 'six_partial': False}
+    f = {'bcd': False, 'six_partial': False,
+         'oem_c0': any(r[0] == 'g' and r[1] == 0xc0 for r in img.get('records') or [])}
     for name in ('chassis', 'board', 'product'):
         a = img.get(name)
         if a:
@@ -233,6 +317,25 @@ def directed_images(rng, tier):
     out.append(('min-six2', chassis_only(('s', [33, 34]))))
     out.append(('min-six4', chassis_only(('s', [33, 34, 35, 36]))))
     out.append(('min-empty', {'internal': None, 'chassis': None, 'board': None, 'product': None, 'records': []}))
+    # OEM records of type C0h that are not PICMG records (other manufacturer / too short), last and inner
+    dc = ('g', 2, list(range(1, 14)))
+
+    def recs_only(*recs):
+        return {'internal': None, 'chassis': None, 'board': None, 'product': None, 'records': list(recs)}
+    out.append(('min-oem-c0', recs_only(('g', 0xc0, [0x57, 0x01, 0x00, 0x27, 0x00, 0x10, 0x20]))))
+    out.append(('min-oem-c0', recs_only(('g', 0xc0, [0x57, 0x01, 0x00]), dc)))
+    out.append(('min-oem-c0', recs_only(dc, ('g', 0xc0, [0x57, 0x01, 0x00, 0xaa]))))
+    out.append(('min-oem-c0', recs_only(dc, ('g', 0xc0, [0x57, 0x01, 0x00, 0x27, 0x00]))))
+    out.append(('min-oem-c0', recs_only(('g', 0xc0, [0x5a, 0x31, 0x00, 0x27]), dc)))
+    out.append(('min-oem-c0', recs_only(('g', 0xc0, []), ('p', 0x16, 0, [9, 9]), ('g', 0xc0, [0x5a, 0x31, 0x01, 0x16, 0x00, 0x01]))))
+    for _ in range(6 if tier == 'quick' else 60):
+        recs = [gen_record(rng) for _ in range(rng.randrange(0, 3))]
+        recs.insert(rng.randrange(len(recs) + 1), gen_oem_c0(rng))
+        if rng.random() < 0.5:
+            recs.append(gen_oem_c0(rng))
+        img = gen_image(rng, [rng.random() < 0.3, False, rng.random() < 0.3, False, False])
+        img['records'] = recs
+        out.append(('oem-c0', img))
     # every encoding x every byte length 0..63, in a predefined and in a custom position
     for enc in ENCODINGS:
         for n in range(64):
@@ -486,6 +589,27 @@ def real_device(data):
         return exc_tag(e)
 
 
+def device_store(image, size=None):
+    """the bytes make_device(image) stores"""
+    n = len(image)
+    if size is None:
+        size = (n + 255) // 256 * 256 + 256
+    return bytes(image) + b'\xff' * (size - n)
+
+
+def model_dev_line(vv, store):
+    return 'dev %s %s' % (vv, _hex(store))
+
+
+def norm_model_dev(m):
+    """Model.parseFruDevice answer in the vocabulary of real_device"""
+    if m.startswith('ok '):
+        return 'ok ' + _areas_part(m[3:])
+    if m.startswith('CompletionCodeError:'):
+        return 'py:CompletionCodeError'
+    return m
+
+
 def real_date(data, kind='b'):
     from pyipmi import fru
     try:
@@ -681,12 +805,11 @@ def history_case(ctx, drv, vv, case, feats, tag):
             continue
         ctx.count('history-read:' + ('first' if not any(x is not None for x in res[:k]) else 'after-earlier-reads'))
         if drv is not None and st['do'] == 'inv':
-            # tie: the Lean model of the parser on the image the device holds now
-            hx = case['images'][held]['hex']
+            # tie: the Lean model of the device path on the bytes the device holds now
+            hx = _hex(mem)
             if hx not in _MODEL:
-                _MODEL[hx] = drv.ask('parse %s a %s' % (vv, hx))
+                _MODEL[hx] = norm_model_dev(drv.ask(model_dev_line(vv, mem)))
             m = _MODEL[hx]
-            m = 'ok ' + _areas_part(m[3:]) if m.startswith('ok ') else m
             if m != real:
                 ctx.disagree('device-history', {'step': k, 'steps': case['steps'][:k + 1], 'hex': hx[:200]}, m[:300], real[:300])
         if real == want:
@@ -790,6 +913,8 @@ def _diagnose(real, kind, feat):
         return SIG_BCD
     if real == 'py:IndexError' and feat['six_partial']:
         return SIG_SIX
+    if feat.get('oem_c0') and _FLAGS is not None and _FLAGS[4]:
+        return SIG_OEM
     if real.startswith('ok '):
         return 'C15:parse-encode:wrong-values'
     return 'C15:parse-encode:raises:%s' % real
@@ -823,6 +948,11 @@ def region_of(view, pos):
     return best
 
 
+def area_of_length_byte(view, pos):
+    """the info-area offset whose length byte is at `pos`"""
+    return pos - 1
+
+
 def judge_altered(ctx, drv, hexs, view, cov, pos, newb, kind, real):
     """property: an image with an altered covered byte is never accepted"""
     c = cov[pos]
@@ -832,17 +962,30 @@ def judge_altered(ctx, drv, hexs, view, cov, pos, newb, kind, real):
     data = bytearray(lean.unhex(hexs))
     data[pos] = newb
     case = {'op': 'altered', 'hex': hexs, 'pos': pos, 'new': newb, 'kind': kind, 'cov': c}
+    how = {'b': 'bytes', 'a': "array('B')", 'l': 'list', 'f': 'file', 'dev': 'FRU device'}[kind]
     if c == '1':
         ctx.violate('C15:altered-accepted:%s' % region_of(view, pos),
-                    'an image whose %s byte at offset %d (covered by a zero-sum checksum) was altered is accepted' % (
-                        region_of(view, pos), pos), case, expected='rejected', observed=real[:200])
+                    'an image whose %s byte at offset %d (covered by a zero-sum checksum) was altered is accepted (%s)' % (
+                        region_of(view, pos), pos, how), case, expected='rejected', observed=real[:200])
     elif c == '2':
-        if drv is None or drv.ask('sums ' + _hex(data)) == '1':
-            ctx.count('altered:length-byte-accepted(range re-delimited, still zero-sum: format limit)')
+        # the spec acceptance condition on the bytes the parser was given (device: the stored bytes):
+        # declared length >= 1 unit, inside the data, zero sum over exactly the declared span
+        given = device_store(data) if kind == 'dev' else bytes(data)
+        if drv is not None and drv.ask('sums ' + _hex(given)) == '1':
+            ctx.count('altered:length-byte-accepted(declared span inside the data and zero-sum: format limit)')
+            return
+        off = area_of_length_byte(view, pos)
+        if newb == 0 and kind == 'dev':
+            sig, why = SIG_LEN0 + ':device', 'to 0: _read_fru_area reads no byte at all and the area object has no attributes'
+        elif newb == 0:
+            sig, why = SIG_LEN0, 'to 0: the checksum is taken over no byte at all'
+        elif off + 8 * newb > len(given):
+            sig, why = SIG_LENX, 'to %d units = %d bytes, %d more than the data hold: the checksum is taken over the truncated ' \
+                'remainder' % (newb, 8 * newb, off + 8 * newb - len(given))
         else:
-            ctx.violate('C15:altered-accepted:length-byte',
-                        'altered info-area length byte at offset %d accepted although the re-delimited range '
-                        'does not sum to zero' % pos, case, expected='rejected', observed=real[:200])
+            sig, why = 'C15:altered-accepted:length-byte', 'although the declared span does not sum to zero'
+        ctx.violate(sig, 'an image whose %s info-area length byte at offset %d (covered by the area checksum) was altered %s '
+                    '- accepted (%s)' % (region_of(view, pos), pos, why, how), case, expected='rejected', observed=real[:200])
     else:
         ctx.count('altered:uncovered-accepted')
 
@@ -852,12 +995,21 @@ def judge_altered(ctx, drv, hexs, view, cov, pos, newb, kind, real):
 # ------------------------------------------------------------------------------------------
 
 def _vv(flags):
-    return ('1' if flags[0] else '0') + ('1' if flags[1] else '0')
+    return ''.join('1' if f else '0' for f in flags)
 
 
-def _alter_values(rng, old, tier):
+def _variant_name(flags):
+    return {(True,) * 5: 'asShipped', (False,) * 5: 'intended',
+            (False, False, True, True, True): 'afterC15_1'}.get(tuple(flags), 'mixed')
+
+
+def _alter_values(rng, old, tier, extra=()):
     if tier == 'thorough':
         return [v for v in range(256) if v != old]
+    if extra:
+        vals = set(extra) | set([0x00, 0x01, 0xff, (old + 1) & 0xff, (old - 1) & 0xff, old ^ 0x80])
+        vals.discard(old)
+        return sorted(vals)
     vals = set([old ^ 0x01, old ^ 0x80, (old + 1) & 0xff, (old - 1) & 0xff, old ^ 0xff, 0x00, 0xc1, 0xff])
     while len(vals) < 11:
         vals.add(rng.randrange(256))
@@ -873,12 +1025,12 @@ def run(ctx):
 
 
 def _run(ctx):
+    global _FLAGS
     drv = ctx.driver('drv_c15')
-    flags = _probe()
+    flags = _FLAGS = _probe()
     vv = _vv(flags)
-    ctx.extra['variant'] = {'bcdBytesOnly': flags[0], 'sixStrict': flags[1],
-                            'model': 'asShipped' if flags == (True, True) else
-                                     'intended' if flags == (False, False) else 'mixed'}
+    ctx.extra['variant'] = {'bcdBytesOnly': flags[0], 'sixStrict': flags[1], 'areaLenLax': flags[2],
+                            'devLenLax': flags[3], 'picmgTypeOnly': flags[4], 'model': _variant_name(flags)}
     rng = ctx.rng('c15')
     quick = ctx.tier == 'quick'
 
@@ -921,6 +1073,7 @@ def _run(ctx):
     for label, img, hexs, cov, view in valid:
         for kind in ('b', 'a', 'l'):
             model_lines.append('parse %s %s %s' % (vv, kind, hexs))
+        model_lines.append(model_dev_line(vv, device_store(lean.unhex(hexs))))
     models = iter(drv.ask_many(model_lines))
     n = 0
     for label, img, hexs, cov, view in valid:
@@ -942,6 +1095,9 @@ def _run(ctx):
         m_by_kind = {}
         for kind in ('b', 'a', 'l'):
             m_by_kind[kind] = next(models)
+        m_dev = norm_model_dev(next(models))
+        if feat['oem_c0']:
+            ctx.count('image-with:oem-c0-record(not PICMG)')
         for kind in KINDS:
             real = real_parse(data, kind)
             ctx.case(('valid', kind, hexs), nontrivial=len(data) > 8)
@@ -952,11 +1108,13 @@ def _run(ctx):
             if model != real:
                 ctx.disagree('parse-valid', {'label': label, 'kind': kind, 'hex': hexs}, model, real)
         # the model of the intended parser must report the view (theorem parse_encode, executed)
-        # device path: property only
+        # device path: property + tie with the model of the device path
         real = real_device(data)
         ctx.case(('valid', 'dev', hexs), nontrivial=len(data) > 8)
         ctx.count('stream:valid:device')
         judge_valid(ctx, label, hexs, view, feat, 'dev', real)
+        if m_dev != real:
+            ctx.disagree('parse-valid-device', {'label': label, 'hex': hexs}, m_dev, real)
         # date (modelled, not verified): civil date of the spec vs datetime
         if img.get('board') is not None:
             want = drv.ask('date %d' % img['board']['minutes'])
@@ -988,7 +1146,7 @@ def _run(ctx):
     by_label = {}
     for v in pool:
         by_label.setdefault(v[0], []).append(v)
-    order = ['subset', 'custom', 'records', 'random', 'enc-len', 'date', 'record-size', 'min-bcd']
+    order = ['subset', 'custom', 'records', 'random', 'oem-c0', 'enc-len', 'date', 'record-size', 'min-bcd']
     while len(picked) < n_alt and any(by_label.get(l) for l in order):
         for l in order:
             if by_label.get(l) and len(picked) < n_alt:
@@ -997,25 +1155,46 @@ def _run(ctx):
         data = lean.unhex(hexs)
         alts = []
         for pos in range(len(data)):
-            for nb in _alter_values(rng, data[pos], ctx.tier if cov[pos] != '0' else 'quick'):
+            extra = ()
+            if cov[pos] == '2':
+                # the one value for which the truncated remainder data[off:] sums to zero (a reader that sums the
+                # clamped slice accepts it when the declared length reaches behind the end of the data) - for the
+                # image as given and for the device storage (image + FFh fill)
+                off = pos - 1
+                rest = sum(data[off:]) - data[pos]
+                store = device_store(data)
+                extra = ((-rest) % 256, (-(sum(store[off:]) - data[pos])) % 256)
+            for nb in _alter_values(rng, data[pos], ctx.tier if cov[pos] != '0' else 'quick', extra):
                 alts.append((pos, nb))
-        kinds = ('b', 'a')
+        n_dev = 0
+        plan = []
+        for j, (pos, nb) in enumerate(alts):
+            kinds = ['b', 'a']
+            # device path: every alteration of an info-area length byte, a sample of the others
+            if cov[pos] == '2' or (cov[pos] == '1' and (j % (9 if quick else 5) == 0)):
+                kinds.append('dev')
+                n_dev += 1
+            plan.append((pos, nb, kinds))
         lines = []
-        for pos, nb in alts:
+        for pos, nb, kinds in plan:
             d2 = bytearray(data)
             d2[pos] = nb
             h2 = _hex(d2)
             for kind in kinds:
-                lines.append('parse %s %s %s' % (vv, kind, h2))
+                lines.append(model_dev_line(vv, device_store(d2)) if kind == 'dev' else 'parse %s %s %s' % (vv, kind, h2))
         ms = iter(drv.ask_many(lines))
-        for pos, nb in alts:
+        for pos, nb, kinds in plan:
             d2 = bytearray(data)
             d2[pos] = nb
             for kind in kinds:
                 model = next(ms)
-                real = real_parse(bytes(d2), kind)
+                if kind == 'dev':
+                    model = norm_model_dev(model)
+                    real = real_device(bytes(d2))
+                else:
+                    real = real_parse(bytes(d2), kind)
                 ctx.case(('altered', kind, hexs, pos, nb))
-                ctx.count('stream:altered:cov%s' % cov[pos])
+                ctx.count('stream:altered:cov%s%s' % (cov[pos], ':device' if kind == 'dev' else ''))
                 judge_altered(ctx, drv, hexs, view, cov, pos, nb, kind, real)
                 if model != real:
                     ctx.disagree('parse-altered', {'hex': hexs, 'pos': pos, 'new': nb, 'kind': kind}, model, real)
@@ -1102,7 +1281,7 @@ def _subparsers(ctx, drv, vv, rng, valid):
                 b = noisy(data[off:])
                 if not b:
                     continue
-                cases.append(('mr %s' % _hex(b), (lambda b=b: canon_multi(fru.InventoryMultiRecordArea(b))), 'mr'))
+                cases.append(('mr %s %s' % (vv, _hex(b)), (lambda b=b: canon_multi(fru.InventoryMultiRecordArea(b))), 'mr'))
         b = noisy(data[:8])
         if b:
             cases.append(('hdr %s' % _hex(b), (lambda b=b: canon_header(fru.InventoryCommonHeader(b))), 'hdr'))
@@ -1110,14 +1289,15 @@ def _subparsers(ctx, drv, vv, rng, valid):
         b = bytes(rng.randrange(256) for _ in range(rng.randrange(1, 40)))
         if rng.random() < 0.6:
             b = bytes([rng.choice((0xc0, 0xc0, rng.randrange(256))), rng.choice((2, 0x82, rng.randrange(256))),
-                       rng.randrange(0, 12)]) + b
+                       rng.randrange(0, 12), 0, 0]) + (bytes(PICMG_ID) + bytes([rng.choice((0x27, rng.randrange(256)))])
+                                                       if rng.random() < 0.5 else b'') + b
             # make header and body checksums right most of the time
             bb = bytearray(b)
             if len(bb) >= 5 and rng.random() < 0.8:
                 bb[3] = (-sum(bb[5:5 + bb[2]])) % 256
                 bb[4] = (-sum(bb[:4])) % 256
             b = bytes(bb)
-        cases.append(('mr %s' % _hex(b), (lambda b=b: canon_multi(fru.InventoryMultiRecordArea(b))), 'mr'))
+        cases.append(('mr %s %s' % (vv, _hex(b)), (lambda b=b: canon_multi(fru.InventoryMultiRecordArea(b))), 'mr'))
     models = drv.ask_many([c[0] for c in cases])
     for (line, thunk, what), model in zip(cases, models):
         real = _real_sub(thunk)
@@ -1161,16 +1341,25 @@ def replay(ctx, v):
             data = bytearray(lean.unhex(case['hex']))
             old = data[case['pos']]
             data[case['pos']] = case['new']
-            real = real_parse(bytes(data), case['kind'])
-            print('image (%d bytes), byte %d altered %02x -> %02x (coverage class %s), as %s' % (
-                len(data), case['pos'], old, case['new'], case['cov'], case['kind']))
+            dev = case['kind'] == 'dev'
+            real = real_device(bytes(data)) if dev else real_parse(bytes(data), case['kind'])
+            print('image (%d bytes), byte %d altered %02x -> %02x (coverage class %s%s), %s' % (
+                len(data), case['pos'], old, case['new'], case['cov'],
+                ': info-area length byte' if case['cov'] == '2' else '',
+                'stored in a FRU device and read with get_fru_inventory()' if dev else 'as %s' % case['kind']))
             print('  expected  : rejected')
             print('  real code : %s' % real[:300])
             if case['cov'] == '2' and real.startswith('ok '):
+                given = device_store(data) if dev else bytes(data)
+                off = case['pos'] - 1
+                print('  declared length %d bytes from offset %d; the data hold %d bytes from there; sum over the declared '
+                      'span = %d' % (8 * case['new'], off, len(given) - off, sum(given[off:off + 8 * case['new']]) % 256))
                 try:
-                    ok = ctx.driver('drv_c15').ask('sums ' + _hex(data)) == '1'
+                    ok = ctx.driver('drv_c15').ask('sums ' + _hex(given)) == '1'
                 except lean.LeanError:
                     ok = False
+                if ok:
+                    print('  (declared span inside the data and zero-sum: format limit, not a violation)')
                 return not ok
             return real.startswith('ok ')
         if op == 'history':
